@@ -1,12 +1,478 @@
-//! Extension module (Tier A): owner fills in. Output: coq/gen/ParFacts.v
+//! Extension module (Tier A) for C01. Output: coq/gen/ParFacts.v
+//!
+//! Regenerates, from /repo/egglog-bridge/src/lib.rs on every run, the CONTROL FACTS of the rebuild
+//! loop that the C01 theorems (coq/Egg/RebuildBound.v, pinned in Props/C01.v) are stated under:
+//!
+//!  * `EGraph::rebuild` (native branch)  -> `rebuild_loop_exit_condition : loop_exit`
+//!        `loop { ..; if !a && !b && !c { break; } }` with that `break` the only exit = ExitWhenNoChange;
+//!        `for _ in 0..N { .. }` (N a literal or a local `const`)                   = ExitAfterCap N
+//!  * the order of the steps inside the loop body -> `rebuild_loop_order : list rebuild_step`
+//!        (rebuild_containers, apply_rebuild, refresh_rows_for_values, inc_ts — in SOURCE order)
+//!  * the flags whose all-false conjunction leaves the loop -> `rebuild_break_flags : list change_flag`
+//!  * `EGraph::run_rules_inner` / the flush function (the one calling `merge_all`): the rebuild is
+//!    run iff the union-find grew -> `rebuild_guard_run_rules`, `rebuild_guard_flush : rebuild_guard`
+//!
 //! Contract: return (text of the .v file, report lines). Each report line is one JSON object
 //! {"item":"ParFacts.<name>","file":"<rust file>","ok":true|false[,"error":"..."]}.
-//! Fail closed: when a site is not recognised, OMIT the Gallina definition (so dependent proofs stop
-//! compiling) and push an ok:false report line.
+//! Fail closed: when a site is not recognised, the Gallina definition is OMITTED (dependent proofs
+//! stop compiling) and an ok:false report line is pushed.
+use quote::ToTokens;
+use syn::visit::Visit;
+use syn::{BinOp, Block, Expr, ImplItem, Item, Lit, Pat, Stmt, UnOp};
 
-pub fn generate(_repo: &std::path::Path) -> (String, Vec<String>) {
-    (
-        "(* GENERATED by /verif/translator (x_par.rs): nothing extracted yet *)\n".to_string(),
-        Vec::new(),
-    )
+const FILE: &str = "egglog-bridge/src/lib.rs";
+
+type R<T> = Result<T, String>;
+
+fn norm<T: ToTokens>(t: &T) -> String {
+    t.to_token_stream().to_string().chars().filter(|c| !c.is_whitespace()).collect()
+}
+
+/// names of all method calls inside a syntax node, in visiting (source) order
+#[derive(Default)]
+struct Calls {
+    names: Vec<String>,
+    breaks: usize,
+    returns: usize,
+}
+impl<'ast> Visit<'ast> for Calls {
+    fn visit_expr_method_call(&mut self, e: &'ast syn::ExprMethodCall) {
+        // receiver first so that `a.f().g()` yields f, g
+        self.visit_expr(&e.receiver);
+        self.names.push(e.method.to_string());
+        for a in &e.args {
+            self.visit_expr(a);
+        }
+    }
+    fn visit_expr_break(&mut self, e: &'ast syn::ExprBreak) {
+        self.breaks += 1;
+        syn::visit::visit_expr_break(self, e);
+    }
+    fn visit_expr_return(&mut self, e: &'ast syn::ExprReturn) {
+        self.returns += 1;
+        syn::visit::visit_expr_return(self, e);
+    }
+    // closures / nested fns are not part of this control flow, but count their calls anyway
+}
+
+fn calls_of_stmt(s: &Stmt) -> Calls {
+    let mut c = Calls::default();
+    c.visit_stmt(s);
+    c
+}
+fn calls_of_block(b: &Block) -> Calls {
+    let mut c = Calls::default();
+    c.visit_block(b);
+    c
+}
+fn calls_of_expr(e: &Expr) -> Calls {
+    let mut c = Calls::default();
+    c.visit_expr(e);
+    c
+}
+
+fn find_fn<'a>(file: &'a syn::File, ty: &str, pred: &dyn Fn(&syn::ImplItemFn) -> bool) -> Option<&'a syn::ImplItemFn> {
+    for it in &file.items {
+        if let Item::Impl(im) = it {
+            if im.trait_.is_some() {
+                continue;
+            }
+            let tyname = match &*im.self_ty {
+                syn::Type::Path(p) => p.path.segments.last().map(|s| s.ident.to_string()),
+                _ => None,
+            };
+            if tyname.as_deref() != Some(ty) {
+                continue;
+            }
+            for ii in &im.items {
+                if let ImplItem::Fn(f) = ii {
+                    if pred(f) {
+                        return Some(f);
+                    }
+                }
+            }
+        }
+    }
+    None
+}
+
+fn stmt_expr(s: &Stmt) -> Option<&Expr> {
+    match s {
+        Stmt::Expr(e, _) => Some(e),
+        _ => None,
+    }
+}
+
+/// `let x = init;` / `let x: T = init;` -> (x, init)
+fn let_binding(s: &Stmt) -> Option<(String, &Expr)> {
+    if let Stmt::Local(l) = s {
+        let name = match &l.pat {
+            Pat::Ident(i) => i.ident.to_string(),
+            Pat::Type(t) => match &*t.pat {
+                Pat::Ident(i) => i.ident.to_string(),
+                _ => return None,
+            },
+            _ => return None,
+        };
+        let init = l.init.as_ref()?;
+        if init.diverge.is_some() {
+            return None;
+        }
+        return Some((name, &init.expr));
+    }
+    None
+}
+
+fn flatten_and<'a>(e: &'a Expr, out: &mut Vec<&'a Expr>) -> R<()> {
+    match e {
+        Expr::Binary(b) => match b.op {
+            BinOp::And(_) => {
+                flatten_and(&b.left, out)?;
+                flatten_and(&b.right, out)
+            }
+            _ => Err(format!("break condition uses an operator other than && : {}", norm(e))),
+        },
+        Expr::Paren(p) => flatten_and(&p.expr, out),
+        _ => {
+            out.push(e);
+            Ok(())
+        }
+    }
+}
+
+const STEPS: &[(&str, &str)] = &[
+    ("rebuild_containers", "StepContainers"),
+    ("apply_rebuild", "StepTables"),
+    ("refresh_rows_for_values", "StepRefresh"),
+    ("inc_ts", "StepIncTs"),
+];
+
+struct LoopSite<'a> {
+    exit: R<String>,
+    body: &'a Block,
+}
+
+/// the native branch of `EGraph::rebuild` and its iteration construct
+fn loop_site(file: &syn::File) -> R<LoopSite<'_>> {
+    let f = find_fn(file, "EGraph", &|f| f.sig.ident == "rebuild").ok_or("impl EGraph { fn rebuild } not found")?;
+    let mut native: Option<&Block> = None;
+    for s in &f.block.stmts {
+        if let Some(Expr::If(i)) = stmt_expr(s) {
+            let c = norm(&i.cond);
+            if c.contains(".rebuilder(&[])") && c.ends_with(".is_some()") {
+                native = Some(&i.then_branch);
+                break;
+            }
+        }
+    }
+    let native = native.ok_or("native-rebuild branch (`if ...rebuilder(&[]).is_some()`) not found")?;
+    // local consts (for `for _ in 0..CONST`)
+    let mut consts: Vec<(String, u64)> = Vec::new();
+    for s in &native.stmts {
+        if let Stmt::Item(Item::Const(c)) = s {
+            if let Expr::Lit(l) = &*c.expr {
+                if let Lit::Int(i) = &l.lit {
+                    if let Ok(v) = i.base10_parse::<u64>() {
+                        consts.push((c.ident.to_string(), v));
+                    }
+                }
+            }
+        }
+    }
+    let mut site: Option<LoopSite> = None;
+    let mut n_loops = 0;
+    for s in &native.stmts {
+        match stmt_expr(s) {
+            Some(Expr::Loop(l)) => {
+                n_loops += 1;
+                site = Some(LoopSite { exit: loop_exit_of_loop(&l.body), body: &l.body });
+            }
+            Some(Expr::ForLoop(fl)) => {
+                n_loops += 1;
+                // `tables.push` loop: `for (_, func) in self.funcs.iter()` is not the rebuild loop
+                let c = calls_of_block(&fl.body);
+                if !c.names.iter().any(|n| n == "apply_rebuild") {
+                    n_loops -= 1;
+                    continue;
+                }
+                site = Some(LoopSite { exit: loop_exit_of_for(fl, &consts), body: &fl.body });
+            }
+            Some(Expr::While(w)) => {
+                n_loops += 1;
+                site = Some(LoopSite {
+                    exit: Err(format!("`while {}` is not a recognised rebuild loop", norm(&w.cond))),
+                    body: &w.body,
+                });
+            }
+            _ => {}
+        }
+    }
+    if n_loops != 1 {
+        return Err(format!("expected exactly one rebuild loop in the native branch, found {}", n_loops));
+    }
+    site.ok_or_else(|| "rebuild loop not found".to_string())
+}
+
+fn final_break_cond(body: &Block) -> R<&Expr> {
+    let last = body.stmts.last().ok_or("empty loop body")?;
+    let i = match stmt_expr(last) {
+        Some(Expr::If(i)) => i,
+        _ => return Err("the last statement of the loop body is not `if COND { break; }`".into()),
+    };
+    if i.else_branch.is_some() {
+        return Err("the final `if` of the loop body has an else branch".into());
+    }
+    if i.then_branch.stmts.len() != 1 || !matches!(stmt_expr(&i.then_branch.stmts[0]), Some(Expr::Break(b)) if b.expr.is_none() && b.label.is_none()) {
+        return Err("the final `if` of the loop body is not exactly `{ break; }`".into());
+    }
+    Ok(&i.cond)
+}
+
+fn loop_exit_of_loop(body: &Block) -> R<String> {
+    let cond = final_break_cond(body)?;
+    let c = calls_of_block(body);
+    if c.breaks != 1 {
+        return Err(format!("the loop body contains {} `break`s (expected only the final one)", c.breaks));
+    }
+    if c.returns != 0 {
+        return Err("the loop body contains a `return`".into());
+    }
+    // the condition must be the pure all-flags-false conjunction (no counters, no ||)
+    break_flags(body, cond)?;
+    Ok("ExitWhenNoChange".into())
+}
+
+fn loop_exit_of_for(fl: &syn::ExprForLoop, consts: &[(String, u64)]) -> R<String> {
+    if !matches!(&*fl.pat, Pat::Wild(_)) {
+        return Err("rebuild `for` loop with a binding pattern".into());
+    }
+    let r = match &*fl.expr {
+        Expr::Range(r) => r,
+        _ => return Err("rebuild `for` loop not over a range".into()),
+    };
+    if !matches!(r.limits, syn::RangeLimits::HalfOpen(_)) {
+        return Err("rebuild `for` loop over an inclusive range".into());
+    }
+    match r.start.as_deref() {
+        Some(Expr::Lit(l)) if norm(l) == "0" => {}
+        _ => return Err("rebuild `for` loop range does not start at 0".into()),
+    }
+    let cap = match r.end.as_deref() {
+        Some(Expr::Lit(l)) => match &l.lit {
+            Lit::Int(i) => i.base10_parse::<u64>().map_err(|e| e.to_string())?,
+            _ => return Err("non-integer cap".into()),
+        },
+        Some(Expr::Path(p)) => {
+            let name = norm(p);
+            consts.iter().find(|(n, _)| *n == name).map(|(_, v)| *v).ok_or(format!("cap `{}` is not a local const literal", name))?
+        }
+        _ => return Err("unrecognised cap expression".into()),
+    };
+    Ok(format!("ExitAfterCap {}", cap))
+}
+
+fn loop_order(body: &Block) -> R<String> {
+    let mut seq: Vec<&str> = Vec::new();
+    for s in &body.stmts {
+        for n in calls_of_stmt(s).names {
+            if let Some((_, g)) = STEPS.iter().find(|(r, _)| *r == n) {
+                seq.push(g);
+            }
+        }
+    }
+    for (r, g) in STEPS {
+        let k = seq.iter().filter(|x| *x == g).count();
+        if k != 1 {
+            return Err(format!("`{}` occurs {} times in the loop body (expected once)", r, k));
+        }
+    }
+    Ok(format!("[{}]", seq.join("; ")))
+}
+
+fn break_flags(body: &Block, cond: &Expr) -> R<String> {
+    // locals bound from one of the step calls
+    let mut bound: Vec<(String, &str)> = Vec::new();
+    for s in &body.stmts {
+        if let Some((x, init)) = let_binding(s) {
+            let names = calls_of_expr(init).names;
+            for (r, _) in STEPS {
+                if names.iter().any(|n| n == r) {
+                    bound.push((x.clone(), r));
+                }
+            }
+        }
+    }
+    let lookup = |x: &str| bound.iter().find(|(n, _)| n == x).map(|(_, r)| *r);
+    let mut ops = Vec::new();
+    flatten_and(cond, &mut ops)?;
+    let mut flags: Vec<&str> = Vec::new();
+    for o in ops {
+        let inner = match o {
+            Expr::Unary(u) if matches!(u.op, UnOp::Not(_)) => &*u.expr,
+            _ => return Err(format!("operand `{}` of the break condition is not a negation", norm(o))),
+        };
+        let flag = match inner {
+            Expr::Path(p) => match lookup(&norm(p)) {
+                Some("apply_rebuild") => "FlagTables",
+                Some("refresh_rows_for_values") => "FlagRefreshed",
+                _ => return Err(format!("unknown flag `{}` in the break condition", norm(p))),
+            },
+            Expr::MethodCall(m) if m.method == "changed" && m.args.is_empty() => match lookup(&norm(&m.receiver)) {
+                Some("rebuild_containers") => "FlagContainers",
+                _ => return Err(format!("unknown flag `{}` in the break condition", norm(inner))),
+            },
+            _ => return Err(format!("unknown flag `{}` in the break condition", norm(inner))),
+        };
+        if flags.contains(&flag) {
+            return Err(format!("flag {} repeated", flag));
+        }
+        flags.push(flag);
+    }
+    Ok(format!("[{}]", flags.join("; ")))
+}
+
+/// is this statement an unconditional `self.rebuild()` (possibly `?` / `.unwrap()`), at this level
+fn is_rebuild_stmt(s: &Stmt) -> bool {
+    let e = match s {
+        Stmt::Expr(e, _) => e,
+        _ => return false,
+    };
+    let n = norm(e);
+    n == "self.rebuild()?" || n == "self.rebuild().unwrap()" || n == "self.rebuild()"
+}
+
+fn uf_len_local(stmts: &[Stmt], name: &str) -> bool {
+    stmts.iter().any(|s| match let_binding(s) {
+        Some((x, init)) => x == name && norm(init) == "self.db.get_table(self.uf_table).len()",
+        None => false,
+    })
+}
+
+fn guard_of(stmts: &[Stmt], skip_form: bool) -> R<String> {
+    // skip_form: `if before == after { ..return.. }  ... self.rebuild()?;`   (run_rules_inner)
+    // else     : `if before != after { self.rebuild().unwrap(); }`            (flush)
+    let any_rebuild = stmts.iter().any(|s| calls_of_stmt(s).names.iter().any(|n| n == "rebuild"));
+    let mut guarded = false;
+    let mut seen_skip = false;
+    let mut uncond = false;
+    for s in stmts {
+        if let Some(Expr::If(i)) = stmt_expr(s) {
+            let c = norm(&i.cond);
+            let then_calls = calls_of_block(&i.then_branch);
+            let then_rebuilds = then_calls.names.iter().any(|n| n == "rebuild");
+            if c == "uf_size_before==uf_size_after" || c == "uf_size_after==uf_size_before" {
+                if i.else_branch.is_some() || then_rebuilds || then_calls.returns == 0 {
+                    return Err("unrecognised shape of the `uf_size_before == uf_size_after` skip".into());
+                }
+                seen_skip = true;
+                continue;
+            }
+            if c == "uf_size_before!=uf_size_after" || c == "uf_size_after!=uf_size_before" {
+                if i.else_branch.is_some() || !i.then_branch.stmts.iter().any(is_rebuild_stmt) {
+                    return Err("unrecognised shape of the `uf_size_before != uf_size_after` guard".into());
+                }
+                guarded = true;
+                continue;
+            }
+            if c.starts_with("letSome(message)=") {
+                // the panic path of run_rules_inner: rebuilds iff the union-find grew, then returns Err
+                continue;
+            }
+            if then_rebuilds {
+                return Err(format!("rebuild under an unrecognised condition `{}`", c));
+            }
+        } else if is_rebuild_stmt(s) {
+            if seen_skip && skip_form {
+                guarded = true;
+            } else {
+                uncond = true;
+            }
+        } else if matches!(s, Stmt::Expr(..)) && calls_of_stmt(s).names.iter().any(|n| n == "rebuild") {
+            return Err("rebuild call in an unrecognised statement".into());
+        }
+    }
+    if guarded && !uncond {
+        if !(uf_len_local(stmts, "uf_size_before") && uf_len_local(stmts, "uf_size_after")) {
+            return Err("uf_size_before / uf_size_after are not both `self.db.get_table(self.uf_table).len()`".into());
+        }
+        return Ok("RebuildIffUfGrew".into());
+    }
+    if uncond {
+        return Ok("RebuildAlways".into());
+    }
+    if !any_rebuild {
+        return Ok("RebuildNever".into());
+    }
+    Err("rebuild call site not recognised".into())
+}
+
+pub fn generate(repo: &std::path::Path) -> (String, Vec<String>) {
+    let mut out = String::new();
+    let mut rep: Vec<String> = Vec::new();
+    out.push_str("(* GENERATED by /verif/translator (x_par.rs) from egglog-bridge/src/lib.rs — do not edit *)\n");
+    out.push_str("From Coq Require Import List.\nImport ListNotations.\n\n");
+    out.push_str("Inductive loop_exit := ExitWhenNoChange | ExitAfterCap (cap : nat).\n");
+    out.push_str("Inductive rebuild_step := StepContainers | StepTables | StepRefresh | StepIncTs.\n");
+    out.push_str("Inductive change_flag := FlagContainers | FlagTables | FlagRefreshed.\n");
+    out.push_str("Inductive rebuild_guard := RebuildIffUfGrew | RebuildAlways | RebuildNever.\n\n");
+
+    let mut emit = |name: &str, ty: &str, r: R<String>, out: &mut String| match r {
+        Ok(v) => {
+            out.push_str(&format!("(* item ParFacts.{} *)\nDefinition {} : {} := {}.\n", name, name, ty, v));
+            rep.push(format!("{{\"item\":\"ParFacts.{}\",\"file\":\"{}\",\"ok\":true}}", name, FILE));
+        }
+        Err(e) => {
+            out.push_str(&format!("(* item ParFacts.{} NOT RECOGNISED: {} *)\n", name, e.replace("*)", "* )")));
+            rep.push(format!(
+                "{{\"item\":\"ParFacts.{}\",\"file\":\"{}\",\"ok\":false,\"error\":\"{}\"}}",
+                name,
+                FILE,
+                e.replace('\\', "\\\\").replace('"', "'")
+            ));
+        }
+    };
+
+    let src = std::fs::read_to_string(repo.join(FILE));
+    let file: R<syn::File> = match src {
+        Ok(s) => syn::parse_file(&s).map_err(|e| format!("parse error: {}", e)),
+        Err(e) => Err(format!("cannot read {}: {}", FILE, e)),
+    };
+    match &file {
+        Err(e) => {
+            for (n, t) in [
+                ("rebuild_loop_exit_condition", "loop_exit"),
+                ("rebuild_loop_order", "list rebuild_step"),
+                ("rebuild_break_flags", "list change_flag"),
+                ("rebuild_guard_run_rules", "rebuild_guard"),
+                ("rebuild_guard_flush", "rebuild_guard"),
+            ] {
+                emit(n, t, Err(e.clone()), &mut out);
+            }
+        }
+        Ok(file) => {
+            match loop_site(file) {
+                Ok(site) => {
+                    let order = loop_order(site.body);
+                    let flags = final_break_cond(site.body).and_then(|c| break_flags(site.body, c));
+                    emit("rebuild_loop_exit_condition", "loop_exit", site.exit, &mut out);
+                    emit("rebuild_loop_order", "list rebuild_step", order, &mut out);
+                    emit("rebuild_break_flags", "list change_flag", flags, &mut out);
+                }
+                Err(e) => {
+                    emit("rebuild_loop_exit_condition", "loop_exit", Err(e.clone()), &mut out);
+                    emit("rebuild_loop_order", "list rebuild_step", Err(e.clone()), &mut out);
+                    emit("rebuild_break_flags", "list change_flag", Err(e), &mut out);
+                }
+            }
+            let rr = find_fn(file, "EGraph", &|f| f.sig.ident == "run_rules_inner")
+                .ok_or_else(|| "fn run_rules_inner not found".to_string())
+                .and_then(|f| guard_of(&f.block.stmts, true));
+            emit("rebuild_guard_run_rules", "rebuild_guard", rr, &mut out);
+            let fl = find_fn(file, "EGraph", &|f| calls_of_block(&f.block).names.iter().any(|n| n == "merge_all"))
+                .ok_or_else(|| "fn calling merge_all not found".to_string())
+                .and_then(|f| guard_of(&f.block.stmts, false));
+            emit("rebuild_guard_flush", "rebuild_guard", fl, &mut out);
+        }
+    }
+    (out, rep)
 }
